@@ -2314,7 +2314,9 @@ func (f *fragment) importRoaring(ctx context.Context, data []byte, clear bool) e
 		delete(f.checksums, int(rowID/HashBlockSize))
 		if updateCache {
 			anyChanged = true
-			f.cache.BulkAdd(rowID, f.cache.Get(rowID)+uint64(changes))
+			// Recount from storage: the cached count is 0 for a row that was
+			// evicted from or never admitted to the cache.
+			f.cache.BulkAdd(rowID, f.storage.CountRange(rowID*ShardWidth, (rowID+1)*ShardWidth))
 		}
 	}
 	// we only set this if we need to update the cache
